@@ -15,6 +15,33 @@ SOL = "ethereum/contracts/Messages.sol"
 RAL = "alephium/contracts/governance.ral"
 
 
+def _wrap_eval(expr, env, width):
+    """integer expression (+ - * / parentheses, identifiers from env) with every intermediate result taken modulo 2^width"""
+    import ast
+    mod = 2 ** width
+
+    def ev(n):
+        if isinstance(n, ast.BinOp):
+            a, b = ev(n.left), ev(n.right)
+            if isinstance(n.op, ast.Add):
+                return (a + b) % mod
+            if isinstance(n.op, ast.Sub):
+                return (a - b) % mod
+            if isinstance(n.op, ast.Mult):
+                return (a * b) % mod
+            if isinstance(n.op, (ast.Div, ast.FloorDiv)):
+                return (a // b) % mod if b else None
+        if isinstance(n, ast.Constant):
+            return n.value % mod
+        if isinstance(n, ast.Name):
+            return env[n.id] % mod
+        raise ValueError(ast.dump(n))
+    try:
+        return ev(ast.parse(expr.replace("/", "//"), mode="eval").body)
+    except Exception:
+        return None
+
+
 def extract(ctx):
     facts = {}
     # constants folded (tools/gofold); a straight-line body `x := e ... return e'` is inlined into one expression
@@ -49,6 +76,12 @@ def extract(ctx):
     if m:
         width = int(m.group(1) or 256)
         env, ok = {}, True
+        # an `unchecked { ... }` block around the body: same statements, but arithmetic wraps at the operand width instead of reverting
+        body_txt = m.group(3)
+        um = re.match(r"^\s*unchecked\s*\{(.*)\}\s*$", body_txt, re.S)
+        facts["_solUnchecked"] = bool(um)
+        if um:
+            m = type("M", (), {"group": lambda self, i, _m=m, _b=um.group(1): _b if i == 3 else _m.group(i)})()
         inl = lambda e: re.sub(r"\b[A-Za-z_]\w*\b", lambda t: "(" + env[t.group(0)] + ")" if t.group(0) in env else t.group(0), e)
         for st in [x.strip() for x in m.group(3).split(";") if x.strip()]:
             d = re.match(r"^uint(\d*)\s+(\w+)\s*=\s*(.+)$", st, re.S)
@@ -109,6 +142,7 @@ def gen(ctx):
     defs = []
     lean_terms = {}
     sol_width = facts.pop("_solWidth", 256)
+    sol_unchecked = facts.pop("_solUnchecked", False)
     sol_loop = facts.pop("_solLoop", False)
     ral_loop = facts.pop("_ralLoop", False)
     for k, lname in (("go", "goQuorum"), ("sol", "solQuorum"), ("ral", "ralQuorum")):
@@ -135,16 +169,18 @@ def gen(ctx):
         ctx.gen("C07", "namespace Whv.Gen.C07\n\n" + "\n".join(defs) + "\nend Whv.Gen.C07\n")
     ctx.cov["gen_facts"] = {k: {"source": v[2], "expr": v[1]} for k, v in facts.items() if not k.startswith("_")}
     facts["_solWidthKept"] = sol_width
+    facts["_solUncheckedKept"] = sol_unchecked
     return facts, nq == 3
 
 
 def run(ctx):
     facts, ok = gen(ctx)
     sol_width = facts.pop("_solWidthKept", 256)
+    sol_unchecked = facts.pop("_solUncheckedKept", False)
     if ok:
-        ctx.prove(families=("processor", "evm"))
+        ctx.prove(families=("processor", "evm", "explorer"))
     else:
-        ctx.lake_build(["drv_processor", "drv_evm"])
+        ctx.lake_build(["drv_processor", "drv_evm", "drv_explorer"])
 
     # --- validate the translation against the compiled Go function, and search for a failing n
     ov = ctx.overlay({"node/pkg/processor/zz_verif_c07_test.go": "processor/c07_test.go"})
@@ -171,8 +207,11 @@ def run(ctx):
             try:
                 got[k] = exprtrans.evaluate(expr, {var: n})
                 if k == "sol" and sol_width < 256:
+                    if sol_unchecked:
+                        # unchecked block: every intermediate result wraps modulo 2^width
+                        got[k] = _wrap_eval(expr, {var: n % 2 ** sol_width}, sol_width)
                     # Solidity ^0.8 checked arithmetic at the declared width: n itself and n*2 must fit, else the call reverts
-                    if n >= 2 ** sol_width or n * 2 >= 2 ** sol_width:
+                    elif n >= 2 ** sol_width or n * 2 >= 2 ** sol_width:
                         got[k] = "revert"
             except Exception as e:  # noqa
                 got[k] = None
@@ -216,6 +255,14 @@ def run(ctx):
     dist = ctx.cov.get("generator_distribution")
     c10.run_gsfetch_for(ctx, c10.GSFETCH_CLAUSES)
     ctx.cov["rule"] = rule + " | guardian-set fetch: sets of 1..255 keys on a fake EVM node, what arrives on the processor's set channel is compared key by key"
+    if dist is not None:
+        ctx.cov["generator_distribution"] = dist
+    # --- the explorer's gate (anchor vaa_gossip_consumer.go) applies the same threshold: its gate cases, clause explorer-accepts-below-quorum
+    from checks import c19
+    rule = ctx.cov["rule"]
+    dist = ctx.cov.get("generator_distribution")
+    c19.run_gate_for(ctx, c19.C07_CLAUSES)
+    ctx.cov["rule"] = rule + " | explorer gate: verifyVAA / Push with quorum-1, quorum and surplus signatures for every set size"
     if dist is not None:
         ctx.cov["generator_distribution"] = dist
     ctx.assumptions += ["the contracts are never executed here (no solc / no Alephium VM): their formulas are tied by source translation only"]
